@@ -1208,6 +1208,12 @@ func (db *DB) FlushAll(of Object) (err error) {
 	db.Lock()
 	defer db.Unlock()
 
+	// like any other operation, it must be refused if the collection
+	// does not exist or if the structure of the object changed
+	if _, err = db.schema(of); err != nil {
+		return
+	}
+
 	return db.flushAll(of)
 }
 
